@@ -280,15 +280,20 @@ PLANS["C14"] = {
             "size/parts and add up to size (which parts are the bigger ones is not prescribed); compositions on mutable parts: every part of a "
             "mutable split is read through its ImageView side, split again read-only (both axes) and split again mutably (both axes, valid and "
             "invalid requests), the sub-parts adding 1<<20: every band pixel must end up incremented exactly twice; long step: 1xN and Nx1 views with N up to 100 000 "
-            "split into up to N parts (extent x parts beyond 2^32); interleave step: sibling mutable parts used alternately "
+            "split into up to N parts (extent x parts beyond 2^32); huge step: one U8 image of 65 536 x 65 544 pixels (> 2^32; 4.3 GB of lazily zeroed "
+            "memory, a few pages touched) whose row and column bands are judged by the addresses of the rows the parts expose - skipped with a note "
+            "if the host refuses the allocation; interleave step: sibling mutable parts used alternately "
             "row by row (also under Miri in C03); non-trivial = every (kind, size, placement); distinct = distinct descriptor",
     "assumptions": ["NonZeroU32 arguments make size = 0 and parts = 0 unrepresentable"],
     "exhaustive": {"quick": True, "thorough": True},
     "quick": [step("rel", "firv-views", 0, sub="splits"), step("dbg", "firv-views", 0, sub="splits"), step("rel", "firv-views", 0, sub="interleave"),
-              step("rel", "firv-views", 0, sub="long"), step("dbg", "firv-views", 0, sub="long")],
+              step("rel", "firv-views", 0, sub="long"), step("dbg", "firv-views", 0, sub="long"),
+              # one image of more than 2^32 pixels (lazily zeroed memory, parts judged by row addresses)
+              step("rel", "firv-views", 0, sub="huge", shards=1), step("dbg", "firv-views", 0, sub="huge", shards=1)],
     "thorough": [step("rel", "firv-views", 0, sub="splits", timeout=7200), step("dbg", "firv-views", 0, sub="splits", timeout=14000),
                  step("rel", "firv-views", 0, sub="interleave", timeout=7200),
-                 step("rel", "firv-views", 0, sub="long"), step("dbg", "firv-views", 0, sub="long")],
+                 step("rel", "firv-views", 0, sub="long"), step("dbg", "firv-views", 0, sub="long"),
+                 step("rel", "firv-views", 0, sub="huge", shards=1), step("dbg", "firv-views", 0, sub="huge", shards=1)],
 }
 FLOORS["C14"] = {"quick": [
     (">= 10^5 split calls with both outcomes, >= 10^5 mutable splits, >= 10^6 pixels read back through the parent",
